@@ -20,6 +20,7 @@ type Variant struct {
 	File     string // path relative to the repository root
 	Old, New string // Old must occur exactly once in the current file, else the variant is stale
 	Edits    []Edit // further edits (other files or other places)
+	Patch    string // alternatively: a unified diff under /verif (seeded change), applied in memory
 	Breaking bool
 	Expect   string // substring expected in the reported construct key (breaking only)
 	Note     string
@@ -59,6 +60,13 @@ func findVariant(name string) *Variant {
 }
 
 func (v *Variant) overlay(dir string) (map[string][]byte, bool) {
+	if v.Patch != "" {
+		b, err := os.ReadFile(filepath.Join(verifDir(), v.Patch))
+		if err != nil {
+			return nil, false
+		}
+		return applyUnifiedDiff(dir, string(b))
+	}
 	edits := append([]Edit{{v.File, v.Old, v.New}}, v.Edits...)
 	ov := map[string][]byte{}
 	for _, e := range edits {
@@ -243,4 +251,109 @@ func runSelfTestAll(seed int64) int {
 		return 1
 	}
 	return 0
+}
+
+// applyUnifiedDiff applies a `git diff` to the files under dir in memory. Every hunk's old lines must be
+// found exactly (at the stated position or, failing that, at a unique other position); otherwise the patch
+// is stale.
+func applyUnifiedDiff(dir, diff string) (map[string][]byte, bool) {
+	ov := map[string][]byte{}
+	lines := strings.Split(diff, "\n")
+	var file string
+	var content []string
+	flush := func() {
+		if file != "" {
+			ov[filepath.Join(dir, file)] = []byte(strings.Join(content, "\n"))
+		}
+	}
+	offset := 0
+	for i := 0; i < len(lines); i++ {
+		l := lines[i]
+		switch {
+		case strings.HasPrefix(l, "+++ b/"):
+			flush()
+			file = strings.TrimPrefix(l, "+++ b/")
+			b, err := os.ReadFile(filepath.Join(dir, file))
+			if err != nil {
+				return nil, false
+			}
+			content = strings.Split(string(b), "\n")
+			offset = 0
+		case strings.HasPrefix(l, "@@ "):
+			var oldStart, oldLen, newStart, newLen int
+			oldLen, newLen = 1, 1
+			hdr := strings.Fields(l)
+			if len(hdr) < 3 {
+				return nil, false
+			}
+			parse := func(s string, a, b *int) {
+				s = strings.TrimLeft(s, "-+")
+				if k := strings.Index(s, ","); k >= 0 {
+					fmt.Sscanf(s[:k], "%d", a)
+					fmt.Sscanf(s[k+1:], "%d", b)
+				} else {
+					fmt.Sscanf(s, "%d", a)
+				}
+			}
+			parse(hdr[1], &oldStart, &oldLen)
+			parse(hdr[2], &newStart, &newLen)
+			var oldL, newL []string
+			j := i + 1
+			for ; j < len(lines); j++ {
+				h := lines[j]
+				if strings.HasPrefix(h, "@@ ") || strings.HasPrefix(h, "diff --git") || strings.HasPrefix(h, "--- ") {
+					break
+				}
+				switch {
+				case strings.HasPrefix(h, "+"):
+					newL = append(newL, h[1:])
+				case strings.HasPrefix(h, "-"):
+					oldL = append(oldL, h[1:])
+				case strings.HasPrefix(h, " "):
+					oldL = append(oldL, h[1:])
+					newL = append(newL, h[1:])
+				case h == "" && j == len(lines)-1:
+				case strings.HasPrefix(h, "\\"):
+				default:
+					oldL = append(oldL, h)
+					newL = append(newL, h)
+				}
+			}
+			i = j - 1
+			match := func(at int) bool {
+				if at < 0 || at+len(oldL) > len(content) {
+					return false
+				}
+				for k := range oldL {
+					if content[at+k] != oldL[k] {
+						return false
+					}
+				}
+				return true
+			}
+			at := oldStart - 1 + offset
+			if !match(at) {
+				found := -1
+				for k := 0; k+len(oldL) <= len(content); k++ {
+					if match(k) {
+						if found >= 0 {
+							return nil, false
+						}
+						found = k
+					}
+				}
+				if found < 0 {
+					return nil, false
+				}
+				at = found
+			}
+			nc := append([]string{}, content[:at]...)
+			nc = append(nc, newL...)
+			nc = append(nc, content[at+len(oldL):]...)
+			content = nc
+			offset += len(newL) - len(oldL)
+		}
+	}
+	flush()
+	return ov, len(ov) > 0
 }
